@@ -58,7 +58,9 @@ def ap_any(p):
 SLICES = {
     'marked': (BASE + ('modsubs', 'marked', 'kwargs'), X.tf_marked(), ap_marked, 3),
     'marked-noadjust': (BASE + ('modsubs', 'marked'), X.tf_marked(adjust_imports=False), ap_marked, 1),
-    'marked-lbounds': (BASE + ('modsubs', 'marked', 'lbshift'), X.tf_marked(), ap_marked, 2),
+    'marked-lbounds': (('select', 'while', 'exitcycle', 'modsubs', 'marked', 'lbshift'), X.tf_marked(), ap_marked, 2),
+    'marked-lbsections': (('section', 'modsubs', 'marked', 'lbshift'), X.tf_marked(), ap_marked, 1),
+    'marked-optional': (('select', 'modsubs', 'marked', 'optional', 'kwargs'), X.tf_marked(), X.need(ap_marked, 'optional-absent|optional-present'), 2),
     'marked-return': (('modsubs', 'marked', 'return'), X.tf_marked(), X.need(ap_marked, 'return'), 1),
     'marked-print': (('modsubs', 'marked', 'calleeprint'), X.tf_marked(), X.need(ap_marked, 'callee-print'), 1),
     'marked-exprdep': (('modsubs', 'marked', 'exprdep'), X.tf_marked(), X.need(ap_marked, 'expr-actual-mentions-defined'), 1),
@@ -66,7 +68,8 @@ SLICES = {
     'marked-nestedsub': (('modsubs', 'marked', 'nestedsub'), X.tf_marked(), X.need(ap_marked, 'nested-subscript'), 1),
     'marked-nested': (('modsubs', 'marked', 'nested', 'functions', 'imported'), X.tf_marked(), X.need(ap_marked, 'nested'), 1),
     'internal': (BASE + ('internal', 'modsubs'), X.tf_internal, ap_intsub, 3),
-    'internal-lbounds': (BASE + ('internal', 'lbshift'), X.tf_internal, ap_intsub, 1),
+    'internal-lbounds': (('select', 'while', 'exitcycle', 'internal', 'lbshift'), X.tf_internal, ap_intsub, 1),
+    'internal-optional': (('select', 'internal', 'optional'), X.tf_internal, X.need(ap_intsub, 'optional-absent|optional-present'), 1),
     'internal-nestedsub': (('internal', 'nestedsub'), X.tf_internal, X.need(ap_intsub, 'nested-subscript'), 1),
     'internal-fn': (('internal', 'internalfn'), X.tf_internal, ap_internal, 1),
     'functions': (BASE + ('functions', 'elemental'), X.tf_functions(), ap_functions, 3),
@@ -88,7 +91,7 @@ SLICES = {
     'constants-internal': (('consts', 'internal', 'constinternal'), X.tf_constants(True), X.need(ap_extconsts, 'const-internal'), 1),
     'constants-print': (('consts', 'printrefs'), X.tf_constants(True), X.need(ap_extconsts, 'const-in-print'), 1),
     'constants-all': (('consts', 'localconst', 'internal'), X.tf_constants(False), ap_consts, 1),
-    'xform-default': (('modsubs', 'marked', 'functions', 'elemental'), X.tf_transformation(), ap_any, 2),
+    'xform-default': (('modsubs', 'marked', 'functions', 'elemental', 'optional'), X.tf_transformation(), ap_any, 2),
     'xform-all': (('modsubs', 'marked', 'stmtfunc', 'consts', 'internal'),
                   X.tf_transformation(inline_constants=True, inline_stmt_funcs=True, inline_internals=True, inline_elementals=False,
                                       remove_dead_code=False), ap_any, 2),
